@@ -228,6 +228,15 @@ def _check_script_reader(ctx):
         body_names = {n.id for n in ast.walk(loop) if isinstance(n, ast.Name)}
         streams = [k for k, v in env_pre.items() if T.is_op(_strip_raise(v), 'STREAM') and k in body_names]
         BUF = None
+        HYBRID = False
+        if streams:
+            # a buffer walked by position next to the stream (pushes that run past the buffer are completed from the stream)?
+            bufs = [k for k, v in env_pre.items() if k in body_names and k not in (cnts[0], lens[0]) and k not in streams
+                    and T.type_of(_strip_raise(v)) == 'bytes' and T.contains(_strip_raise(v), lambda x: x == D0)]
+            if len(bufs) == 1 and len(streams) == 1:
+                raise AnalysisError('C19.READER', 'Script.parse walks a buffer (%s) by position and also reads from the stream (%s) '
+                                    'inside its loop: which bytes an element is made of then depends on conditions across '
+                                    'iterations that this per-iteration analysis does not follow' % (bufs[0], streams[0]))
         if not streams:
             # buffer form: the whole body is read once (checked against the declared length) and walked by position
             bufs = [k for k, v in env_pre.items() if k in body_names and k not in (cnts[0], lens[0])
@@ -261,6 +270,9 @@ def _check_script_reader(ctx):
                 # the buffer holds exactly the declared number of bytes (the prologue's read is checked below)
                 buf = T.cat(T.const(bytes([b])), rest)
                 env = {params[0]: T.clsref(SCRIPT), BUF: buf, CNT: T.const(0), CMDS: T.lst([]), LEN: ls}
+                if HYBRID:
+                    # the stream stands right behind the buffer it was read from
+                    env[STREAM] = ev.new_stream(T.cat(buf, S('tail', type='bytes')), T.len_(buf))
                 res, env2, facts2 = ev.eval_fragment('script.Script.parse', loop.body, env,
                                                      Facts().add(T.eq(T.len_(buf), ls)).add(T.lt(T.const(0), ls)))
             cm, cnt, st = env2.get(CMDS), env2.get(CNT), env2.get(STREAM)
@@ -270,6 +282,17 @@ def _check_script_reader(ctx):
                              % (b, T.show(cm, maxdepth=3)), where)
                 continue
             elem = _strip_raise(cm[1][0])
+            if HYBRID and T.tag(elem) == 'phi':
+                # an element completed from beyond the buffer appears only where the slice of the buffer came out shorter than
+                # the command declares; the buffer holds exactly the declared number of bytes, so the new position lies behind
+                # the declared length there and the epilogue refuses (C19.ACCT-FINAL) - those alternatives are not results
+                def short_slice(c_):
+                    return T.is_op(c_, 'LT') and T.is_op(c_[2], 'LEN') and T.is_op(c_[2][2], 'SLICE') \
+                        and T.contains(c_[2][2], lambda y: y == rest)
+                kept = [lf for cs_, lf in normal_leaves(elem) if not any(short_slice(c_) for c_ in cs_)]
+                if len(kept) == 1:
+                    ob.note('first byte 0x%02x: alternatives completed from the stream exist only past the declared length' % b)
+                    elem = kept[0]
             consumed = ev.stream_state(st)[1] if BUF is None else None
             if 1 <= b <= 75:
                 exp_elem = T.slice_(rest, T.const(0), T.const(b))
